@@ -483,6 +483,7 @@ pub fn map_children(g: &G, f: &mut dyn FnMut(&G) -> G) -> G {
         RepCtxMax(a) => RepCtxMax(bx(a)),
         TryRepCtx(a) => TryRepCtx(bx(a)),
         RepCtxPre(a, x, k) => RepCtxPre(bx(a), *x, *k),
+        CtxBare(k, a) => CtxBare(*k, bx(a)),
         IntoIter(a, s) => {
             let a = bx(a);
             IntoIter(a, sink(s, &mut bx))
@@ -865,6 +866,30 @@ pub fn ctx_pre_templates() -> Vec<G> {
     out
 }
 
+/// a repetition configured from the context and used without collecting (as a unit parser, or counted), under
+/// every context provider, followed by a rest capture; also inside to_slice / ignored / a sequence
+pub fn ctx_bare_templates() -> Vec<G> {
+    let mut out = vec![];
+    for it in [Just('a'), Any, JustSeq('a', 'b'), Filter(b(Any)), Validate(b(OneOf("ab")), 1)] {
+        for kind in 0..6u8 {
+            let cores: Vec<G> = vec![
+                with_rest(CtxBare(kind, b(it.clone()))),
+                with_rest(ToSlice(b(CtxBare(kind, b(it.clone()))))),
+                with_rest(Ignored(b(CtxBare(kind, b(it.clone()))))),
+                with_rest(Then(b(CtxBare(kind, b(it.clone()))), b(OrNot(b(Just('c')))))),
+            ];
+            for core in cores {
+                for c in ['a', 'b', 'c', 'd'] {
+                    out.push(WithCtx(c, b(core.clone())));
+                }
+                out.push(ThenWithCtx(b(Any), b(core.clone())));
+                out.push(IgnoreWithCtx(b(Any), b(core)));
+            }
+        }
+    }
+    out
+}
+
 /// Focused output-elision class (C04): emitters under every eliding combinator, deep enough for an
 /// iteration that emits and then fails.
 pub fn k04_deep() -> Class {
@@ -914,6 +939,16 @@ pub fn k_maperr() -> Class {
     let unary = vec![u1(|a| Some(MapErr(a))), u1(|a| Some(TryMap(a))), u1(|a| Some(OrNot(a))), u1(|a| Some(Labelled(a, true)))];
     let binary = vec![u2(|a, c| Some(Then(a, c))), u2(|a, c| Some(Or(a, c)))];
     Class { name: "Kmaperr", leaves, unary, binary, ternary: vec![] }
+}
+
+/// Focused pending-error class (C06): the combinators that set the pending primary error aside and put it back
+/// (try_map, try_map_with, filter) over optional parts, sequences and choices - deep enough for an error to be
+/// pending before such a combinator starts AND another one to be left behind by its own successful parser.
+pub fn k_alt() -> Class {
+    let leaves = vec![Just('a'), Just('b'), Any];
+    let unary = vec![u1(|a| Some(TryMap(a))), u1(|a| Some(TryMapWith(a))), u1(|a| Some(Filter(a))), u1(|a| Some(OrNot(a)))];
+    let binary = vec![u2(|a, c| Some(Then(a, c))), u2(|a, c| Some(Or(a, c)))];
+    Class { name: "Kalt", leaves, unary, binary, ternary: vec![] }
 }
 
 /// Focused failed-recovery class (C08): emitters inside parsers and inside recovery strategies, no other
